@@ -351,6 +351,10 @@ func c17Strings(c *core.Ctx) {
 		literal := !strings.ContainsAny(cs.S, ",") && strings.TrimSpace(cs.S) != ""
 		if literal {
 			fields = append(fields, reflect.StructField{Name: "L", Type: tString, Tag: reflect.StructTag("value:" + strconv.Quote(cs.S))})
+			if !strings.ContainsAny(cs.S, "[{(") {
+				// the same literal in a tag that also carries an argument
+				fields = append(fields, reflect.StructField{Name: "LA", Type: tString, Tag: reflect.StructTag("value:" + strconv.Quote(cs.S+",required=false"))})
+			}
 		}
 		h := reflect.New(reflect.StructOf(fields))
 		o := scen.Start(scen.StartSpec{Ch: envx.Fixed("", nil), Comps: []any{h.Interface()}, Opts: []app.SettingOption{app.SetConfigLoader(loader.NewRawLoader(doc))}})
@@ -388,7 +392,7 @@ func c17Strings(c *core.Ctx) {
 		if observed != "" {
 			c.Outcome("changed")
 			c.Report(fmt.Sprintf("C17/strings/%q/%s", cs.S, core.Hash(observed)), "value-changed",
-				fmt.Sprintf("configured string k: %q bound to string fields by prefix (P), value (V, PV), prop (Q)%s: %s", cs.S, map[bool]string{true: " and written as a literal (L)", false: ""}[literal], observed), cs)
+				fmt.Sprintf("configured string k: %q bound to string fields by prefix (P), value (V, PV), prop (Q)%s: %s", cs.S, map[bool]string{true: " and written as a literal (L; LA with an argument after it)", false: ""}[literal], observed), cs)
 			return
 		}
 		c.Outcome("unchanged")
